@@ -4,6 +4,7 @@ CONSTANTS
   Dev_AfterSpawnKillDetached = TRUE
   Dev_BuiltinIgnoreList = TRUE
   Dev_AddEmptyNameReturns = FALSE
+  Dev_QuitRefusedWhenBusy = FALSE
   Configs <- mc_Configs
   Requests <- mc_Requests
   MaxReq = 1
